@@ -212,6 +212,9 @@ def build(u_, rad=False):
     def coord(i):
         return PixCoord(pos[i], pos[i + 1]) if pix else SkyCoord(pos[i], pos[i + 1], unit='deg', frame=frame)
     sz = [ds9text.value(v)[1] if pix else ds9text.value(v)[1] * u.deg for v in u_['sizes']]
+    if pix and _EXC[0] % 3 == 1:
+        # pixel sizes as numpy scalars that are not Python numbers (a value taken from an integer or single-precision array)
+        sz = [np.int64(v) if v == int(v) else (np.float32(v) if float(np.float32(v)) == v else v) for v in sz]
     # an excluded region carries a false include flag in any of the forms the package itself stores (False; the integer 0 of the DS9 and
     # FITS readers; numpy's False)
     _EXC[0] += 1
@@ -399,7 +402,7 @@ def trace_validation(ctx):
             if rnd.random() < 0.4:
                 meta['include'] = rnd.choice([True, False, 0, 1])
             if rnd.random() < 0.4:
-                meta['label'] = rnd.choice(['lab', 'two words', 'source #3', '#1'])
+                meta['label'] = rnd.choice(['lab', 'two words', 'source #3', '#1', 'global fit', 'a global maximum'])
             if rnd.random() < 0.3:
                 meta['type'] = rnd.choice(['ann', 'reg'])
             kind = rnd.choice(['circle', 'ellipse', 'rectangle', 'cannulus', 'polygon', 'line', 'point', 'text'])
